@@ -2,6 +2,8 @@
    Main results:
      no_clobber          with overwrite off, every node that existed before the run is the same after it
      conflict_reported   with overwrite off, an occupied output path gives a non-zero exit status
+     no_stray            with overwrite off, whatever is new after the run sits at an output path or is a directory
+                         above one (nothing is created through a symbolic link)
      unrepaired_clobbers the code before the fix (only the archive path tested, parts opened with
                          File::create) replaces an existing part file and exits 0            (D23)
      follow_guard_writes_through   a Path::exists guard lets a dangling link through: its target is created
@@ -384,3 +386,166 @@ Lemma repaired_refuses_dangling_link :
   let p := [lit "ar.pna"] in let fs0 := [(p, Symlink [lit "outside"])] in
   run {| kind := Create; overwrite := false; outs := [(OFile, p)] |} fs0 = (fs0, 1).
 Proof. vm_compute. reflexivity. Qed.
+
+(* ---- nothing appears anywhere else ---------------------------------------------------------- *)
+(* with overwrite off, whatever exists after the run and did not before sits at an output path or is a
+   directory above one: in particular nothing is created through a symbolic link *)
+Definition new_ok (os : list path) (s s' : fs) : Prop :=
+  forall q, node s q = None -> node s' q <> None -> exists p, In p os /\ is_prefix q p = true.
+
+Lemma is_prefix_app a : forall b, is_prefix a (a ++ b) = true.
+Proof. induction a as [|x a IH]; intro b; cbn; [reflexivity|]. rewrite IH. rewrite andb_true_r. now apply bytes_eqb_eq. Qed.
+Lemma is_prefix_refl a : is_prefix a a = true.
+Proof. rewrite <- (app_nil_r a) at 2. apply is_prefix_app. Qed.
+Lemma is_prefix_trans a : forall b c, is_prefix a b = true -> is_prefix b c = true -> is_prefix a c = true.
+Proof.
+  induction a as [|x a IH]; intros [|y b] [|z c] H1 H2; cbn in *; try reflexivity; try discriminate.
+  apply andb_true_iff in H1. destruct H1 as [H1 H1']. apply andb_true_iff in H2. destruct H2 as [H2 H2'].
+  apply bytes_eqb_eq in H1. apply bytes_eqb_eq in H2. subst. apply andb_true_iff. split; [now apply bytes_eqb_eq | eapply IH; eassumption].
+Qed.
+Lemma is_prefix_parent p : is_prefix (parent p) p = true.
+Proof.
+  unfold parent. destruct p as [|x p]; [reflexivity|].
+  rewrite (app_removelast_last x (l := x :: p)) at 2 by discriminate. apply is_prefix_app.
+Qed.
+
+Lemma new_ok_refl os s : new_ok os s s.
+Proof. intros q H1 H2. contradiction. Qed.
+Lemma new_ok_trans os s1 s2 s3 : new_ok os s1 s2 -> new_ok os s2 s3 -> new_ok os s1 s3.
+Proof.
+  intros H12 H23 q Hq H3. destruct (node s2 q) eqn:E.
+  - apply H12; [assumption | rewrite E; discriminate].
+  - now apply H23.
+Qed.
+Lemma new_ok_put os s p n : (exists o, In o os /\ is_prefix p o = true) -> new_ok os s (put s p n).
+Proof.
+  intros Ho q Hq H. destruct (path_eqb p q) eqn:E.
+  - apply path_eqb_eq in E. now subst q.
+  - rewrite node_put_other in H; [contradiction|]. intros ->. now rewrite path_eqb_refl in E.
+Qed.
+
+Lemma mkdirs_from_new os rest : forall s pre s',
+  (exists o, In o os /\ is_prefix (pre ++ rest) o = true) ->
+  mkdirs_from s pre rest = Some s' -> new_ok os s s'.
+Proof.
+  induction rest as [|c r IH]; intros s pre s' Ho H; cbn [mkdirs_from] in H.
+  - injection H as <-. apply new_ok_refl.
+  - assert (Ho' : exists o, In o os /\ is_prefix ((pre ++ [c]) ++ r) o = true) by now rewrite <- app_assoc.
+    destruct (lookup s (pre ++ [c])) as [[x| |t]|] eqn:E; try discriminate.
+    + eapply IH; eassumption.
+    + eapply new_ok_trans; [|eapply IH; eassumption].
+      apply new_ok_put. destruct Ho' as [o [Hin Hp]]. exists o. split; [assumption|].
+      eapply is_prefix_trans; [apply is_prefix_app | exact Hp].
+Qed.
+Lemma mkdirs_new os s p s' : (exists o, In o os /\ is_prefix p o = true) -> mkdirs s p = Some s' -> new_ok os s s'.
+Proof. intros Ho H. eapply (mkdirs_from_new os p s []); eassumption. Qed.
+Lemma mkdirs_parent_new os s p s' : In p os -> mkdirs s (parent p) = Some s' -> new_ok os s s'.
+Proof. intros Hin H. eapply mkdirs_new; [|exact H]. exists p. split; [assumption | apply is_prefix_parent]. Qed.
+
+Lemma trunc_create_new os s1 s2 p : In p os -> node s1 p = None \/ node s1 p = Some Dir ->
+  trunc_create s1 p = Some s2 -> new_ok os s1 s2.
+Proof.
+  intros Hin Hn H. unfold trunc_create in H. destruct (is_dir s1 (parent p)); [|discriminate].
+  destruct Hn as [Hn|Hn]; rewrite Hn in H; [|discriminate].
+  injection H as <-. apply new_ok_put. exists p. split; [assumption | apply is_prefix_refl].
+Qed.
+Lemma create_new_new os s p s' : In p os -> create_new s p = Some s' -> new_ok os s s'.
+Proof.
+  intros Hin H. apply create_new_some in H. destruct H as [_ ->].
+  apply new_ok_put. exists p. split; [assumption | apply is_prefix_refl].
+Qed.
+Lemma write_parts_new os parts : forall s, incl parts os -> new_ok os s (fst (write_parts false s parts)).
+Proof.
+  induction parts as [|p r IH]; intros s Hi; cbn [write_parts create_part]; [apply new_ok_refl|].
+  destruct (create_new s p) as [s1|] eqn:E; [|apply new_ok_refl].
+  eapply new_ok_trans; [eapply create_new_new; [apply Hi; now left | exact E] | apply IH].
+  intros x Hx. apply Hi. now right.
+Qed.
+Lemma node_unset_none s p q : node s q = None -> node (unset s p) q = None.
+Proof.
+  destruct q as [|c q]; [discriminate|]. cbn [node]. induction s as [|[r n] s IH]; [reflexivity|].
+  cbn [lookup unset]. destruct (path_eqb r (c :: q)) eqn:E; [discriminate|]. intro H.
+  destruct (path_eqb r p); [now apply IH|]. cbn [lookup]. rewrite E. now apply IH.
+Qed.
+Lemma run_parts_new os s head parts : In head os -> incl parts os -> new_ok os s (fst (run_parts false s head parts)).
+Proof.
+  intros Hh Hi. unfold run_parts. pose proof (write_parts_new os parts s Hi) as Hn.
+  destruct (write_parts false s parts) as [s1 ok]. cbn [fst] in Hn. destruct ok; [|exact Hn].
+  unfold finish_parts. destruct parts as [|p1 [|p2 r]]; try exact Hn.
+  cbn [negb andb]. destruct (lexists s1 head); [exact Hn|].
+  destruct (rename s1 p1 head) as [s2|] eqn:Er; cbn [fst]; [|exact Hn].
+  eapply new_ok_trans; [exact Hn|].
+  unfold rename in Er. destruct (node s1 p1) as [n|]; [|discriminate].
+  assert (Hs2 : s2 = put (unset s1 p1) head n).
+  { destruct (node s1 head) as [[x| |t]|]; try discriminate;
+      (destruct (is_dir s1 (parent head)); [now injection Er as <- | discriminate]). }
+  subst s2. intros q Hq H. destruct (path_eqb head q) eqn:E.
+  - apply path_eqb_eq in E. subst q. exists head. split; [assumption | apply is_prefix_refl].
+  - rewrite node_put_other in H by (intros ->; now rewrite path_eqb_refl in E).
+    now rewrite node_unset_none in H.
+Qed.
+
+Lemma run_single_new os mk p s : In p os -> new_ok os s (fst (run_single mk false p s)).
+Proof.
+  intro Hin. unfold run_single. cbn [negb andb]. destruct (lexists s p) eqn:El; [apply new_ok_refl|].
+  assert (Hp : node s p = None) by (unfold lexists in El; destruct (node s p); [discriminate | reflexivity]).
+  destruct mk.
+  - destruct (mkdirs s (parent p)) as [s1|] eqn:Em; [|apply new_ok_refl].
+    pose proof (mkdirs_parent_new os _ _ _ Hin Em) as H1.
+    destruct (trunc_create s1 p) as [s2|] eqn:Et; cbn [fst]; [|exact H1].
+    eapply new_ok_trans; [exact H1|]. eapply trunc_create_new; [exact Hin | | exact Et].
+    destruct (mkdirs_nodes _ _ _ Em p) as [H|H]; [left; now rewrite H | now right].
+  - destruct (trunc_create s p) as [s2|] eqn:Et; cbn [fst]; [|apply new_ok_refl].
+    eapply trunc_create_new; [exact Hin | now left | exact Et].
+Qed.
+Lemma extract_one_new os s k p : In p os -> new_ok os s (fst (extract_one false s k p)).
+Proof.
+  intro Hin. unfold extract_one. destruct (sym_anc s p); [apply new_ok_refl|].
+  cbn [negb andb]. destruct (lexists s p) eqn:El; [apply new_ok_refl|].
+  assert (Hp : node s p = None) by (unfold lexists in El; destruct (node s p); [discriminate | reflexivity]).
+  rewrite Hp. destruct (mkdirs s (parent p)) as [s1|] eqn:Em; [|apply new_ok_refl].
+  pose proof (mkdirs_parent_new os _ _ _ Hin Em) as H1.
+  destruct k.
+  - destruct (trunc_create s1 p) as [s2|] eqn:Et; cbn [fst]; [|exact H1].
+    eapply new_ok_trans; [exact H1|]. eapply trunc_create_new; [exact Hin | | exact Et].
+    destruct (mkdirs_nodes _ _ _ Em p) as [H|H]; [left; now rewrite H | now right].
+  - destruct (mkdirs s1 p) as [s2|] eqn:Em2; cbn [fst]; [|exact H1].
+    eapply new_ok_trans; [exact H1|]. eapply mkdirs_new; [|exact Em2].
+    exists p. split; [assumption | apply is_prefix_refl].
+  - destruct (node s1 p) eqn:En; cbn [fst]; [exact H1|].
+    eapply new_ok_trans; [exact H1|]. apply new_ok_put. exists p. split; [assumption | apply is_prefix_refl].
+Qed.
+Lemma extract_all_new os l : forall s err, incl (map snd l) os -> new_ok os s (fst (extract_all false s l err)).
+Proof.
+  induction l as [|[k p] r IH]; intros s err Hi; cbn [extract_all]; [apply new_ok_refl|].
+  pose proof (extract_one_new os s k p (Hi p (or_introl eq_refl))) as H1.
+  destruct (extract_one false s k p) as [s1 e]. cbn [fst] in H1.
+  eapply new_ok_trans; [exact H1 | apply IH]. intros x Hx. apply Hi. now right.
+Qed.
+
+Theorem no_stray : forall c fs0, overwrite c = false ->
+  forall q, ~ existed fs0 q -> existed (fst (run c fs0)) q ->
+  exists p, In p (map snd (outs c)) /\ is_prefix q p = true.
+Proof.
+  intros [k ow os] fs0 How q Hq H. cbn [overwrite] in How. subst ow. unfold existed in *.
+  assert (Hq' : node fs0 q = None) by (destruct (node fs0 q); [exfalso; apply Hq; discriminate | reflexivity]).
+  cbn [outs]. clear Hq. revert q Hq' H.
+  change (new_ok (map snd os) fs0 (fst (run {| kind := k; overwrite := false; outs := os |} fs0))).
+  unfold run. cbn [kind overwrite outs].
+  destruct k; try (destruct os as [|[o p] [|x r]]; try apply new_ok_refl; apply run_single_new; now left).
+  - destruct os as [|[o head] parts]; [apply new_ok_refl|]. cbn [map snd].
+    unfold run_create_split. cbn [negb andb]. destruct (lexists fs0 head); [apply new_ok_refl|].
+    destruct (mkdirs fs0 (parent head)) as [s1|] eqn:Em; [|apply new_ok_refl].
+    eapply new_ok_trans; [eapply mkdirs_parent_new; [now left | exact Em]|].
+    apply run_parts_new; [now left | intros x Hx; now right].
+  - destruct os as [|[o head] parts]; [apply new_ok_refl|]. cbn [map snd].
+    unfold run_split. destruct (mkdirs fs0 (parent head)) as [s1|] eqn:Em; [|apply new_ok_refl].
+    pose proof (mkdirs_parent_new (head :: map snd parts) _ _ _ (or_introl eq_refl) Em) as H1.
+    destruct (map snd parts) as [|p1 r] eqn:Ep; [exact H1|].
+    cbn [negb andb]. destruct (exists_follow s1 p1); [exact H1|].
+    eapply new_ok_trans; [exact H1|]. apply run_parts_new; [now left | intros x Hx; now right].
+  - unfold run_extract. pose proof (extract_all_new (map snd os) os fs0 false (incl_refl _)) as H1.
+    destruct (extract_all false fs0 os false) as [s1 e]. exact H1.
+  - unfold run_extract. pose proof (extract_all_new (map snd os) os fs0 false (incl_refl _)) as H1.
+    destruct (extract_all false fs0 os false) as [s1 e]. exact H1.
+Qed.
